@@ -2,7 +2,7 @@
    Statements only; proofs live in C19/Proofs*.v.  Model: C19/Model.v (transcription of
    psutil/_pslinux.py, psutil/__init__.py), specification: C19/Spec.v. *)
 From PV Require Import C19.Spec C19.Proofs C19.ProofsTemps C19.ProofsFans C19.ProofsBattery C19.ProofsCpu C19.ProofsStat
-  C19.ProofsCpuinfo C19.ProofsTree.
+  C19.ProofsCpuinfo C19.ProofsTree C19.PyGen Gen.C19_Tables C19.ProofsGen.
 
 (* T1+T2: every hwmon layout (any chips/sensors, every subset of input/max/crit/label/name present, absent,
    unreadable, non-numeric, negative or zero values): the call returns a value (never fails); under each unit
@@ -264,3 +264,33 @@ Theorem C19_empty_tree : forall fahr,
   /\ cpu_freq_mean [] = None.
 Proof. exact empty_tree. Qed.
 Print Assumptions C19_empty_tree.
+
+(* G1 (source translation): the nested helper multi_bcat() of sensors_battery(), translated from the current source
+   (Gen/C19_Tables.v: loop over the paths, `if ret != null` guard, try int(ret) except ValueError: ret.strip(),
+   final None), computes the model's multi_bcat on every list of files. *)
+Theorem C19_gen_multi_bcat : forall fs, run_multi gen_multi_bcat fs = Val (multi_bcat fs).
+Proof. exact gen_multi_bcat_correct. Qed.
+Print Assumptions C19_gen_multi_bcat.
+
+(* G2 (source translation): the head of sensors_battery() translated from the current source (FileNotFoundError guard
+   around os.listdir, the name filter startswith('BAT') or 'battery' in lower(), `if not bats: return None`, min(bats))
+   selects, for every directory listing, what the model's sensors_battery selects. *)
+Theorem C19_gen_battery_head : forall (A : Type) (listing : option (list (bytes * A))),
+  run_head gen_battery_head listing =
+  match listing with
+  | None => Val None
+  | Some l => match filter (fun e => is_battery_name (fst e)) l with
+              | [] => Val None
+              | x :: r => Val (Some (min_entry x r))
+              end
+  end.
+Proof. exact gen_battery_head_correct. Qed.
+Print Assumptions C19_gen_battery_head.
+
+(* G3 (source translation, syntactic pin only): the body of sensors_battery() after `root = ...` translated from the
+   current source is statement for statement the reference program C19.ProofsGen.battery_body_ref (the translation of
+   /repo at 16d17e9).  Its equality with the model's battery_of for ALL inputs is not proved (sampled only:
+   ProofsGen.body_ref_agrees_on_samples); this theorem makes every edit of that body break the proof build. *)
+Theorem C19_gen_battery_body_pinned : gen_battery_body = battery_body_ref.
+Proof. exact gen_battery_body_pinned. Qed.
+Print Assumptions C19_gen_battery_body_pinned.
